@@ -361,24 +361,52 @@ def c18_orders(sc, seed):
     out += cmp_records("C18", outs[0], outs[1], "alt vs noalt under a uniform capacity loss of every supplier of an input",
                        rtol=1e-8, atol_scale=1e-9)
     # an unequal, small capacity loss that fades out slowly (per-step change of the capacity ratio far below 1e-5):
-    # once it is over every supplier is back at the same relative capacity and alt orders are noalt orders again
+    # once it is over every supplier is back at the same relative capacity, and from the same state the alt orders are
+    # the noalt orders again (the histories of two separate runs differ, so both variants are evaluated on one state)
     if rng.random() < 0.35 and sc["table"]["m"] >= 2:
-        outs = []
         r0 = rng.choice(regs)
         ev2 = {"type": "arbitrary", "occ": 2, "dur": 1, "name": None, "impact": {f"{r0}|{ssec}": rng.choice([0.002, 0.004])},
                "recovery_tau": 420, "curve": "linear"}
-        for ot in ("alt", "noalt"):
-            tw = copy.deepcopy(sc)
-            tw["events"] = [ev2]
-            tw["T"] = 450
-            tw["model"].pop("dt", None)
-            tw["model"]["order_type"] = ot
-            tw["model"]["alpha_max"] = tw["model"]["alpha_base"]
-            tw["sim"]["save_records"] = []
-            outs.append(run_records(tw))
-        if "error" not in outs[0] and "error" not in outs[1]:
-            out += cmp_records("C18", outs[0], outs[1], "alt vs noalt after a small unequal capacity loss has faded out over 420 steps (all suppliers back at the same relative capacity)",
-                               rtol=1e-7, atol_scale=1e-9, names=["intermediate_demand"], rows_a=range(430, 450), rows_b=range(430, 450))
+        tw = copy.deepcopy(sc)
+        tw["events"] = [ev2]
+        tw["T"] = 450
+        tw["model"]["dt"] = 1
+        tw["model"]["order_type"] = "alt"
+        tw["model"]["alpha_max"] = tw["model"]["alpha_base"]
+        tw["sim"]["save_records"] = []
+        tw["sim"]["show_progress"] = False
+        try:
+            sim = scen.build_sim(tw)
+            model = sim.model
+            orig = model.calc_orders
+            seen = []
+
+            def both():
+                if sim.current_temporal_unit >= 430:
+                    m2 = copy.deepcopy(model)
+                    m2.order_type = "noalt"
+                    type(model).calc_orders(m2)
+                    other = np.array(m2.intermediate_demand, dtype=float, copy=True)
+                    orig()
+                    seen.append((int(sim.current_temporal_unit), np.array(model.intermediate_demand, dtype=float, copy=True), other))
+                else:
+                    orig()
+            model.calc_orders = both
+            for _ in range(450):
+                if sim.next_step() == 1:
+                    break
+            for t, mine, other in seen:
+                scale = float(np.max(np.abs(other), axis=0, keepdims=True).max()) or 1.0
+                colmax = np.max(np.abs(other), axis=0)
+                bad = np.abs(mine - other) > 1e-7 * np.maximum(colmax[None, :], 0.0) + 1e-12 * scale
+                if bad.any():
+                    i, j = np.argwhere(bad)[0]
+                    out.append(viol("C18", t, "alt orders differ from noalt orders evaluated on the same state, after a small unequal capacity loss "
+                                    "has faded out over 420 steps (all suppliers back at the same relative capacity)",
+                                    supplier=int(i), client=int(j), alt=float(mine[i, j]), noalt=float(other[i, j])))
+                    break
+        except Exception:
+            pass
     # technical coefficients given with 8 decimals (consistent with Z and x within the accepted tolerance only):
     # both variants must still take their supplier shares from the same flows.  Overproduction disabled: such a
     # table is not exactly at rest and the drift of alpha is not what is compared here
